@@ -329,6 +329,13 @@ package swarm
 //@ loop 3 invariant tcpDelay == 0 && quicDelay == 0 && otherDelay == 0 ==> tcpFirstDialDelay == 0 && lastQUICOrTCPDelay == 0 &&
 //@         (forall j int :: 0 <= j && j < idx3 ==> res[j].Delay == offset)
 //@ loop 3 invariant forall j int :: 0 <= j && j < idx3 ==> res[j].Addr == addrs[j]
+// the two happy-eyeballs reorderings lose no address: after the rotation every address that was in the slice when the
+// iteration started is still there - in place, shifted up by one, or (the promoted IPv4 address) in the second position
+// of its group (prev(e) = value when the iteration started)
+//@ loop 0 atbreak forall k int :: 0 <= k && k < len(addrs) ==> addrs[k] == prev(addrs)[k] ||
+//@         (k + 1 < len(addrs) && addrs[k+1] == prev(addrs)[k]) || addrs[1] == prev(addrs)[k]
+//@ loop 2 atbreak forall k int :: 0 <= k && k < len(addrs) ==> addrs[k] == prev(addrs)[k] ||
+//@         (k + 1 < len(addrs) && addrs[k+1] == prev(addrs)[k]) || addrs[tcpStartIdx+1] == prev(addrs)[k]
 //@ modifies elems(addrs)
 
 //@ func filterAddrs
